@@ -72,11 +72,13 @@ def str_concat(*vs):
 
 
 class SSet:
-    """An unordered set of names (term: Array Name Bool)."""
-    __slots__ = ("term",)
+    """An unordered set of names (term: Array Name Bool).  The object is mutable (|= updates
+    the term in place), so aliasing of set objects is visible."""
+    __slots__ = ("term", "owner")
 
-    def __init__(self, term):
+    def __init__(self, term, owner=None):
         self.term = term
+        self.owner = owner
 
     def __repr__(self):
         return f"SSet({self.term})"
